@@ -58,7 +58,8 @@ Proof.
   unfold select, select_end, select_feed. destruct (N.eqb s sym_end).
   - destruct (find (fun t0 => has (t_on t0) sym_end) ts) eqn:E.
     + intros H; inversion H; subst. apply find_some in E. tauto.
-    + intros H. apply find_some in H. tauto.
+    + destruct (find (fun t0 => has (t_on t0) bit_else) ts) as [t0|] eqn:E2; [|discriminate].
+      destruct (t_fall t0); [|discriminate]. intros H; inversion H; subst. apply find_some in E2. tauto.
   - assert (G : forall l i sk, select_byte_go l i sk s = Some t -> In t l).
     { induction l as [|x l IH]; cbn; intros i sk H; try discriminate.
       destruct (match sk with Some k => Nat.eqb i k | None => false end); [right; eapply IH; eauto|].
